@@ -13,6 +13,9 @@ consistent with the scenario stores - and compares that term with what the prope
 The rules about `iter_settings` are phrased on the CFG (dominance / reachability) with the same canonical facts taken
 from the branch edges that dominate a site, and locate their subjects by role (the stream is the receiver of the
 2-byte peek, the setting is the result of the `Setting(...)` struct parse, ...).
+The terminator clause ("ended by a zero index", whatever follows) is additionally decided by a scenario walk of the CFG
+of one loop iteration (`_ZeroIndex`): with index 0 assumed for the record at the cursor and nothing else, no path may
+reach a `yield` or start the next record - independent of whether the code peeks 2 bytes or parses first.
 
 Verdicts: the located term/site satisfies the condition -> discharged; it is located and differs -> violated; the code
 was reshaped into something the path executor / locator does not model -> undecided.
@@ -50,9 +53,25 @@ Lemmas used when facts are combined (`_lookup`, `_cv`):
       split/partition are not longer than x; len(a + b) = len(a) + len(b); an accumulator `x += e` grows by len(e)
       per execution; a statement nested in loops runs at most the product of their trip bounds per outer iteration
       (`while` and `for .. in iter(f, sentinel)`: inf, `for .. in range(<const>)`: the constant, other `for`: unknown).
-Summary relied on for the integer conversion (`_int_conv`):
-  S1  utils.unpack(data, size, byteorder, signed) is int.from_bytes(data[:size], byteorder, signed=signed); partials
-      of it contribute their bound keywords (read from the resolver), defaults are read from the signature.
+  Z1-Z5 (scenario "the record at the cursor has index 0", `_ZeroIndex`; the only literal involved is the 0 of the
+      property text "ended by a zero index" - it is compared with literals of the code, never fed to /repo code):
+      Z1  the big-endian 16-bit encoding of 0 is 00 00: a look at the first 2 bytes of that record equals b"\\x00\\x00",
+          has length 2 and is truthy; a look at its first k > 2 bytes starts with 00 00, the other k - 2 bytes are
+          unconstrained (a comparison with a literal that does not start with 00 00 fails, one with a k-byte literal
+          that does is a free atom);
+      Z2  the first field of the structure parsed at offset 0 of that record is 0: it compares / orders against integer
+          literals and enum members (L3) like 0, is falsy, and by L1 differs from every other constant;
+      Z3  the remaining fields of that record, the bytes behind it and further reads of the stream are unconstrained
+          (quantifier of the property): atoms built from them only are free;
+      Z4  the result of a struct parse is an instance, never None;
+      Z5  an integer converted (S1 / int.from_bytes; any byte order, signed or not) from the two index bytes, or from
+          a prefix of them, is 0; one converted from more bytes of the look-ahead is 0 iff all of those bytes are 0.
+Summaries relied on:
+  S1  (integer conversion, `_int_conv`) utils.unpack(data, size, byteorder, signed) is int.from_bytes(data[:size],
+      byteorder, signed=signed); partials of it contribute their bound keywords (read from the resolver), defaults
+      are read from the signature.
+  S2  (dissect.cstruct) the truth value of a structure instance is not a function of its first field: `__bool__` is
+      "any field is truthy" (releases without `__bool__`: always truthy).  With index 0 it is therefore a free atom.
 
 R1  6 (C definitions parsed and compared completely with the required layout table), 1.
 R2  3 (per-path key/value terms of the per-setting loop body, analysed once), 2 + 5 (paths selected per scenario of
@@ -72,6 +91,14 @@ R4  3 (identity of the returned mapping term, stores/effects per path of the loo
 R5  2 (CFG reachability / dominance: yield between parse and loop header, terminator edge leaves the loop, handler
     exit, give-back between peek and parse), 3 (`origin`/`inline` of the compared peek and of the seek offset), 1
     (peek / seek / struct-parse located by role), 6 (the constants 2, -2, b"\\x00\\x00", SEEK_CUR).
+    "A zero index alone ends the settings" (`_ZeroIndex`): 2 + 5 (one named scenario - the record at the cursor when
+    an iteration starts has index 0, everything else arbitrary; the CFG of the loop body is walked once per path, an
+    edge is pruned only when the scenario or earlier facts of the path decide its test: Z1-Z5, L1-L3; a path that
+    reaches a yield or enters the body again through free atoms only (Z3, S2) is a violation, one that needs an atom
+    outside Z1-Z5 / Z3 makes the obligation undecided), 4 (cursor offset relative to the record start in the flat
+    domain Z u {unknown}: read(c) +c, peek/tell +0, seek(c, SEEK_CUR) +c, seek(<tell() taken at offset o>) = o, else
+    unknown - decides whether a look-ahead / the struct parse is at offset 0 of the scenario record; flags assigned a
+    literal are constant facts of the path), 3 (`inline` of the tests), 6 (C definitions: first field of Setting).
 R6  2 (facts of the branch edges that dominate the rename / extension site), 3 (`inline` of the tests and of the
     assigned value), 5 + 6 (enum members of the C definitions, 36, 9, 0x80); L1, L3.  "Continues to its NUL" at any
     distance: 4 (upper bound, in the length domain of L5, of the bytes all extension sites can append to the value per
@@ -691,16 +718,19 @@ def run(ctx):
         "stored value is unpack(size, byteorder, signed) of the raw value resolved through functools.partial or "
         "int.from_bytes, or the raw value; key per index_type; one insertion per setting in tuple order; "
         "MappingProxyType exit), of the four cached views (cache slot, emptiness guard, settings_map arguments; helpers "
-        "entered with bound arguments), CFG exit/yield/terminator/seek-back analysis of iter_settings, index-36 and "
+        "entered with bound arguments), CFG exit/yield/terminator/seek-back analysis of iter_settings, a path walk of one iteration "
+        "of its parse loop under the scenario 'the record at the cursor has index 0' (no path may reach a yield or the next record, "
+        "whatever the other fields and the trailing bytes are), index-36 and "
         "User-Agent guards from dominating branch facts, a length-domain upper bound on the bytes the User-Agent continuation can "
         "append per record (must not be finite), cardinality classes (per record / per distinct key) of the arguments of every "
         "positional pairing (zip, multi-iterable map) a cached view is assembled with, and the SETTING_* key vocabulary used "
         "across the package."
     )
-    rep.not_decided = ["the numeric values themselves", "alias-name choice for duplicated enum values (16/17/48)", "behaviour for arbitrary trailing bytes",
+    rep.not_decided = ["the numeric values themselves", "alias-name choice for duplicated enum values (16/17/48)", "trailing bytes: only that a zero index ends the iteration whatever follows it (R5), not where the stream is left",
                        "views that are not computed by settings_map and contain no record/key pairing (undecided)",
                        "that the User-Agent continuation stops exactly at the NUL (only that no constant bounds it)"]
-    rep.trusted_base = ["CPython ast", "networkx dominators", "C-definition parser (csverif.cdefs)", "dissect.cstruct parses fields in declaration order"]
+    rep.trusted_base = ["CPython ast", "networkx dominators", "C-definition parser (csverif.cdefs)", "dissect.cstruct parses fields in declaration order",
+                        "dissect.cstruct: the truth value of a structure instance depends on all of its fields (or is constant), never on the first field alone"]
     r1(ctx)
     r2_r4(ctx)
     r3(ctx)
@@ -1283,6 +1313,479 @@ def _peek2(e):
     return None
 
 
+def _peekk(e):
+    """(stream dotted name, consuming, k) if e looks at the next k >= 2 bytes of a stream: s.read(k) / s.read(k)[:k] /
+    s.peek(k)[:k] for a constant k."""
+    k = None
+    if isinstance(e, ast.Subscript) and isinstance(e.slice, ast.Slice) and e.slice.step is None and (e.slice.lower is None or is_const(e.slice.lower, 0)):
+        k = _c(e.slice.upper)
+        if not isinstance(k, int) or isinstance(k, bool):
+            return None
+        e = e.value
+    if isinstance(e, ast.Call) and isinstance(e.func, ast.Attribute) and e.func.attr in ("read", "peek") and len(e.args) == 1 and not e.keywords \
+            and dotted(e.func.value):
+        n = _c(e.args[0])
+        if not isinstance(n, int) or isinstance(n, bool) or n < 2 or (k is not None and k != n) or (k is None and e.func.attr == "peek"):
+            return None
+        return dotted(e.func.value), e.func.attr == "read", n
+    return None
+
+
+_Z_BUILTINS = ("len", "bool", "int", "bytes", "bytearray", "min", "max", "abs", "ord")
+_Z_HEAD = "__record_head__"
+
+
+class _ZeroIndex:
+    """R5 "a zero index alone ends the settings".
+
+    Named scenario (the terminator clause of the property): *the record at the cursor when an iteration of the parse
+    loop starts has index 0* - its type, length, value and every byte after it are arbitrary (quantifier of the
+    property: any terminator/padding/trailing bytes).  Necessary condition: under the scenario no control-flow path of
+    that iteration reaches a `yield` or the loop header again (= the decoding of a further record).
+
+    The CFG of the loop is walked once per path with symbolic branch facts (`_split`), nothing is executed.  What the
+    scenario determines, in the vocabulary of the code:
+      * a k-byte look at the stream taken at offset 0 of the record (`_peekk`) starts with the two index bytes 00 00;
+      * the struct parsed at offset 0 is that record: its first field (`index`) is 0, it is not None.
+    The offset of the cursor relative to the record start is a value of the flat domain Z u {unknown} with the
+    transfer rules read(k): +k, peek/tell: +0, seek(c, SEEK_CUR): +c, seek(<name bound to tell() at offset o>): o,
+    anything else: unknown.  Comparisons between a scenario subject and a *literal of the code* are folded (lemmas Z1-Z5
+    of the module docstring); every other atom is decided both ways.  A both-ways decision is *free by the quantifier*
+    (-> a path through it is a genuine counterexample) only when the atom is built from the other fields of the
+    record, the truth value of the parsed structure as a whole (summary S2), bytes of the look-ahead behind the index
+    and further reads of the stream; a path that needs any other atom makes the verdict undecided, not violated."""
+
+    MAXSTATES = 6000
+
+    def __init__(self, ctx, f, cfg, loop, parse, pst, sname):
+        self.ctx, self.f, self.cfg, self.loop, self.parse, self.pst, self.sname = ctx, f, cfg, loop, parse, pst, sname
+        arg = parse.args[0] if parse.args and not isinstance(parse.args[0], ast.Starred) else None
+        self.stream = dotted(arg) if arg is not None else None
+        cd = ctx.cdefs("beacon").get("cs_struct")
+        try:
+            fields = [x.name for x in cd.struct("Setting").fields] if cd is not None else []
+        except (KeyError, AttributeError):
+            fields = []
+        self.idx = fields[0] if fields else "index"
+        self.free_fields = set(fields[1:]) if fields else {"type", "length", "value"}
+        self.inside = {id(s) for s in ast.walk(loop)}
+        self.header = cfg.node(loop)
+        self.nforced = 0
+        self._behind = set()  # terms of the stream reads of the test being decided that start behind the index bytes
+        stop = {sname} if sname else set()
+        for s in statements(f.node):
+            if isinstance(s, ast.Assign) and len(s.targets) == 1 and isinstance(s.targets[0], ast.Name):
+                v = s.value
+                if _peekk(v) is not None or (isinstance(v, ast.Call) and isinstance(v.func, ast.Attribute) and v.func.attr == "tell"):
+                    stop.add(s.targets[0].id)
+        self.stop = frozenset(stop)
+        self.reads = []  # terms of the look-ahead shaped reads of the function (outermost shape per read)
+        inner = set()
+        for x in body_walk(f.node):
+            if _peekk(x) is not None and id(x) not in inner:
+                self.reads.append(src(x))
+                if isinstance(x, ast.Subscript):
+                    inner.add(id(x.value))
+
+    # ---------------------------------------------------------------- stream operations of a statement / test
+    def _ops(self, exprs):
+        ops = []
+        for e in exprs:
+            todo = [e]
+            while todo:
+                n = todo.pop()
+                if isinstance(n, (ast.Lambda, ast.FunctionDef, ast.AsyncFunctionDef)):
+                    continue
+                todo.extend(ast.iter_child_nodes(n))
+                if not isinstance(n, ast.Call):
+                    continue
+                if n is self.parse:
+                    ops.append(("parse", n))
+                elif isinstance(n.func, ast.Attribute) and dotted(n.func.value) == self.stream:
+                    ops.append((n.func.attr, n))
+                elif any(dotted(a) == self.stream for a in list(n.args) + [k.value for k in n.keywords]):
+                    ops.append(("escape", n))
+        if len(ops) > 1:
+            if any(getattr(o[1], "end_lineno", None) is None for o in ops):
+                return [("escape", ops[0][1])]
+            ops.sort(key=lambda o: (o[1].end_lineno, o[1].end_col_offset))
+        return ops
+
+    def _move(self, ops, off, tells, sval):
+        """cursor offset / validity of the parsed record after the stream operations `ops`"""
+        for kind, c in ops:
+            if kind in ("peek", "tell", "seekable", "readable"):
+                continue
+            if kind == "read":
+                k = _c(c.args[0]) if len(c.args) == 1 and not c.keywords else None
+                off = off + k if off is not None and isinstance(k, int) and not isinstance(k, bool) and k >= 0 else None
+            elif kind == "seek":
+                b = {"offset": c.args[0] if c.args else None, "whence": c.args[1] if len(c.args) > 1 else None}
+                for k in c.keywords:
+                    if k.arg in b:
+                        b[k.arg] = k.value
+                wh, o = b["whence"], b["offset"]
+                cur = wh is not None and (dotted(wh) in ("io.SEEK_CUR", "os.SEEK_CUR", "SEEK_CUR") or _c(wh) == 1)
+                absolute = wh is None or dotted(wh) in ("io.SEEK_SET", "os.SEEK_SET", "SEEK_SET") or (isinstance(wh, ast.Constant) and wh.value == 0)
+                k = _c(inline(self.f.node, o, stop=self.stop)) if o is not None else None
+                if cur and off is not None and isinstance(k, int) and not isinstance(k, bool):
+                    off = off + k
+                elif absolute and isinstance(o, ast.Name) and o.id in dict(tells):
+                    off = dict(tells)[o.id]
+                else:
+                    off = None
+            elif kind == "parse":
+                sval = off == 0 and self.sname is not None
+                off = None
+            else:
+                off = None
+        return off, sval
+
+    # ---------------------------------------------------------------- folding the scenario into a test
+    def _is_idx(self, e, sval):
+        if not sval:
+            return False
+        if isinstance(e, ast.Call) and dotted(e.func) == "int" and len(e.args) == 1 and not e.keywords:
+            return self._is_idx(e.args[0], sval)
+        return dotted(e) in (f"{self.sname}.{self.idx}", f"{self.sname}.{self.idx}.value")
+
+    def _pk(self, e, pk, direct):
+        """k if e is a look at the first k bytes of the scenario record (a bound name or the look-ahead of this test)"""
+        if isinstance(e, ast.Name) and e.id in pk:
+            return pk[e.id]
+        if direct is not None and src(e) == direct[0]:
+            return direct[1]
+        if isinstance(e, (ast.Call, ast.Subscript)) and pk:
+            return pk.get("=" + src(e))
+        return None
+
+    def _val(self, e, sval, pk, direct):
+        """(python value, is a scenario subject) of an operand the scenario or the code fixes, else None"""
+        if self._is_idx(e, sval):
+            return 0, True
+        k = self._pk(e, pk, direct)
+        if k == 2:
+            return b"\x00\x00", True
+        if isinstance(e, ast.Subscript) and isinstance(e.slice, ast.Slice) and e.slice.step is None and (e.slice.lower is None or is_const(e.slice.lower, 0)) \
+                and _c(e.slice.upper) == 2 and (self._pk(e.value, pk, direct) or 0) >= 2:
+            return b"\x00\x00", True
+        if isinstance(e, ast.Call) and dotted(e.func) == "len" and len(e.args) == 1 and not e.keywords and self._pk(e.args[0], pk, direct) == 2:
+            return 2, True
+        ic = _int_conv(self.ctx, self.f, e) if isinstance(e, ast.Call) else None
+        if ic is not None:
+            # Z5: an integer made of index bytes only (any byte order, signed or not) is 0
+            data, size = ic[3], ic[0]
+            if isinstance(data, ast.Subscript) and isinstance(data.slice, ast.Slice) and data.slice.step is None \
+                    and (data.slice.lower is None or is_const(data.slice.lower, 0)) and isinstance(_c(data.slice.upper), int) and size is None:
+                data, size = data.value, _c(data.slice.upper)
+            k = self._pk(data, pk, direct)
+            if k is not None and (k == 2 or (isinstance(size, int) and not isinstance(size, bool) and 0 < size <= 2)):
+                return 0, True
+        cv = _cv(self.ctx, e)
+        if cv is not None:
+            return cv[1], False
+        return None
+
+    def _fold(self, t, boolpos, sval, pk, direct):
+        """t with every comparison between a scenario subject and a literal of the code replaced by its outcome
+        (Z1-Z4); operands in boolean position likewise.  Builds new nodes, never mutates t."""
+        rec = lambda x, bp: self._fold(x, bp, sval, pk, direct)  # noqa: E731
+        if isinstance(t, ast.UnaryOp) and isinstance(t.op, ast.Not):
+            return ast.UnaryOp(op=ast.Not(), operand=rec(t.operand, True))
+        if isinstance(t, ast.BoolOp):
+            return ast.BoolOp(op=t.op, values=[rec(v, True) for v in t.values])
+        if boolpos and isinstance(t, ast.Call) and dotted(t.func) == "bool" and len(t.args) == 1 and not t.keywords:
+            return rec(t.args[0], True)
+        if isinstance(t, ast.Compare) and len(t.ops) == 1:
+            l, op, r = t.left, t.ops[0], t.comparators[0]
+            if isinstance(op, (ast.In, ast.NotIn)) and isinstance(r, (ast.Tuple, ast.List, ast.Set)) and r.elts:
+                ors = ast.BoolOp(op=ast.Or(), values=[ast.Compare(left=l, ops=[ast.Eq()], comparators=[x]) for x in r.elts])
+                ors = rec(ors, True)
+                return ors if isinstance(op, ast.In) else ast.UnaryOp(op=ast.Not(), operand=ors)
+            a, b = self._val(l, sval, pk, direct), self._val(r, sval, pk, direct)
+            if a is not None and b is not None and (a[1] or b[1]):
+                x, y = a[0], b[0]
+                same = type(x) is type(y) or (isinstance(x, int) and isinstance(y, int))
+                out = None
+                if isinstance(op, (ast.Eq, ast.NotEq)):
+                    out = (same and x == y) == isinstance(op, ast.Eq)
+                elif same and isinstance(x, int) and isinstance(op, (ast.Lt, ast.LtE, ast.Gt, ast.GtE)):
+                    out = {ast.Lt: x < y, ast.LtE: x <= y, ast.Gt: x > y, ast.GtE: x >= y}[type(op)]
+                if out is not None:
+                    self.nforced += 1
+                    return ast.Constant(value=bool(out))
+            # a look at more than the index bytes compared with a literal: the bytes behind the index are free
+            if isinstance(op, (ast.Eq, ast.NotEq)):
+                for p, q in ((l, r), (r, l)):
+                    k, c = self._pk(p, pk, direct), _c(q)
+                    if k is not None and k > 2 and isinstance(c, bytes) and len(c) >= 2:
+                        if c[:2] != b"\x00\x00":
+                            self.nforced += 1
+                            return ast.Constant(value=isinstance(op, ast.NotEq))
+                        if len(c) == k:
+                            self.nforced += 1
+                            return ast.Compare(left=ast.Name(id=_Z_HEAD, ctx=ast.Load()), ops=[op], comparators=[ast.Constant(value=c)])
+                    # ... likewise an integer made of more bytes than the index compared with zero (all of them zero)
+                    ic = _int_conv(self.ctx, self.f, p) if isinstance(p, ast.Call) else None
+                    if ic is not None and self._val(p, sval, pk, direct) is None and isinstance(_c(q), int) and _c(q) == 0:
+                        k = self._pk(ic[3], pk, direct)
+                        size = ic[0] if isinstance(ic[0], int) and not isinstance(ic[0], bool) else k
+                        if k is not None and k > 2 and size is not None and size > 2:
+                            self.nforced += 1
+                            return ast.Compare(left=ast.Name(id=_Z_HEAD, ctx=ast.Load()), ops=[op], comparators=[ast.Constant(value=b"\x00" * min(k, size))])
+            return t
+        if boolpos:
+            a = self._val(t, sval, pk, direct)
+            if a is not None and a[1]:
+                self.nforced += 1
+                return ast.Constant(value=bool(a[0]))
+        return t
+
+    def _not_understood(self, t, sval, pk, direct, boolpos=True):
+        """Why a both-ways decision on (an atom of) the folded test t is not free by the quantifier; None if it is."""
+        if isinstance(t, ast.Constant):
+            return None
+        if isinstance(t, ast.UnaryOp):
+            return self._not_understood(t.operand, sval, pk, direct, isinstance(t.op, ast.Not))
+        if isinstance(t, ast.BoolOp):
+            for v in t.values:
+                w = self._not_understood(v, sval, pk, direct, True)
+                if w:
+                    return w
+            return None
+        if self._is_idx(t, True) or self._pk(t, pk, direct) is not None:
+            return f"`{src(t)[:50]}` is used in a form the scenario does not determine"
+        if isinstance(t, (ast.Attribute, ast.Name)) and _cv(self.ctx, t) is not None:
+            return None
+        if isinstance(t, ast.Name):
+            if t.id == _Z_HEAD:
+                return None
+            if t.id == self.sname:
+                # S2: the truth value of the structure as a whole depends on every field
+                return None if boolpos and sval else f"`{t.id}` is used as a whole"
+            return f"local `{t.id}` carries a value the scenario does not determine"
+        if isinstance(t, ast.Attribute):
+            if isinstance(t.value, ast.Name) and t.value.id == self.sname:
+                return None if sval and t.attr in self.free_fields else f"`{src(t)}` is not a field the scenario leaves free"
+            if dotted(t.value) == self.stream:
+                # bytes behind the parsed record are free; a read before the parse may look at the index bytes themselves
+                return None if sval else f"`{src(t)}` before the record is parsed may look at the index bytes"
+            return self._not_understood(t.value, sval, pk, direct, False)
+        if isinstance(t, ast.Call):
+            fn = t.func
+            if isinstance(fn, ast.Name):
+                if fn.id not in _Z_BUILTINS:
+                    return f"call of `{fn.id}`"
+            elif isinstance(fn, ast.Attribute) and dotted(fn.value) == self.stream and src(t) in self._behind:
+                pass  # a read of this very test that starts behind the index bytes (Z3)
+            elif isinstance(fn, ast.Attribute):
+                w = self._not_understood(fn, sval, pk, direct, False)
+                if w:
+                    return w
+            else:
+                return "call of a computed callable"
+            for a in list(t.args) + [k.value for k in t.keywords]:
+                w = self._not_understood(a, sval, pk, direct, False)
+                if w:
+                    return w
+            return None
+        if isinstance(t, (ast.Compare, ast.BinOp, ast.Subscript, ast.Slice, ast.Tuple, ast.List)):
+            for c in ast.iter_child_nodes(t):
+                if isinstance(c, ast.expr):
+                    w = self._not_understood(c, sval, pk, direct, False)
+                    if w:
+                        return w
+            return None
+        return f"`{src(t)[:50]}` is not modelled"
+
+    # ---------------------------------------------------------------- path walk
+    @staticmethod
+    def _say(key, val):
+        if key[0] == "t":
+            return f"`{key[1]}` is {'truthy' if val else 'falsy'}"
+        if key[0] == "eq":
+            what = "the look-ahead at the record start" if key[1] == _Z_HEAD else f"`{key[1]}`"
+            return f"{what} {'==' if val else '!='} {key[2][1]!r}"
+        if key[0] == "none":
+            return f"`{key[1]}` is {'' if val else 'not '}None"
+        return f"`{key[1]} < {key[2]}` is {val}"
+
+    def _decide(self, test, st):
+        """[(label, state)] for the outcomes of a branch test that are possible under the scenario"""
+        node, facts, pk, tells, sval, off, certain = st
+        ops = self._ops([test])
+        direct = None
+        if len(ops) == 1 and off == 0 and ops[0][0] in ("read", "peek"):
+            for n in ast.walk(test):
+                p = _peekk(n)
+                if p is not None and p[0] == self.stream and (direct is None or isinstance(n, ast.Subscript)):
+                    direct = (src(n), p[2])
+        off2, sval2, self._behind = off, sval, set()
+        for op in ops:
+            if off2 is not None and off2 >= 2 and op[0] not in ("parse", "escape"):
+                self._behind.add(src(op[1]))
+            off2, sval2 = self._move([op], off2, tells, sval2)
+        t = self._fold(inline(self.f.node, test, stop=self.stop), True, sval, dict(pk), direct)
+        why = self._not_understood(t, sval, dict(pk), direct)
+        fd = dict(facts)
+        out = []
+        for want, label in ((True, "true"), (False, "false")):
+            for g in _split(self.ctx, t, fd, want):
+                new = [k for k in g if k not in fd]
+                note = tuple(self._say(k, g[k]) for k in new)
+                out.append((label, (None, frozenset(g.items()), pk, tells, sval2, off2, certain and not (new and why)), note, why if new else None))
+        return out
+
+    def _arrive(self, n, st):
+        """state after the statement of node n has completed normally"""
+        _node, facts, pk, tells, sval, off, certain = st
+        s = self.cfg.stmt.get(n)
+        if s is None or isinstance(s, (ast.If, ast.While, ast.For, ast.AsyncFor, ast.Try, ast.ExceptHandler)) or s.__class__.__name__ == "TryStar":
+            return (n, facts, pk, tells, sval, off, certain)
+        exprs = [i.context_expr for i in s.items] if isinstance(s, (ast.With, ast.AsyncWith)) else [s]
+        ops = self._ops(exprs)
+        before = off
+        off, sval = self._move(ops, off, tells, sval)
+        pkd, td, fd = dict(pk), dict(tells), dict(facts)
+        stored = [x for e in exprs for x in ast.walk(e) if isinstance(x, (ast.Name, ast.Attribute)) and isinstance(x.ctx, ast.Store)]
+        for x in stored:
+            if isinstance(x, ast.Name):
+                pkd.pop(x.id, None)
+                td.pop(x.id, None)
+                word = re.compile(r"(?<![\w.])" + re.escape(x.id) + r"(?!\w)")
+                for k in [k for k in fd if any(isinstance(p, str) and word.search(p) for p in k[1:])]:
+                    del fd[k]
+                if x.id == self.sname:
+                    fd.pop(("none", self.sname), None)
+                    if s is not self.pst:
+                        sval = False
+            elif dotted(x) == f"{self.sname}.{self.idx}":
+                sval = False
+        if s is self.pst and sval:
+            fd[("none", self.sname)] = False  # Z4: the result of a struct parse is an instance
+        if isinstance(s, (ast.Assign, ast.AnnAssign)) and isinstance(s.value, ast.Constant) and not isinstance(s.value.value, (bytes, str)):
+            # a flag set to a literal: its truth value / None-ness is a fact of the path from here on
+            for tg in (s.targets if isinstance(s, ast.Assign) else [s.target]):
+                if isinstance(tg, ast.Name):
+                    fd[("t", tg.id)] = bool(s.value.value)
+                    fd[("none", tg.id)] = s.value.value is None
+        if isinstance(s, ast.Assign) and len(s.targets) == 1 and isinstance(s.targets[0], ast.Name) and len(ops) == 1:
+            p = _peekk(s.value)
+            if p is not None and p[0] == self.stream and before == 0:
+                pkd[s.targets[0].id] = p[2]
+            elif p is None and before == 0 and ops[0][0] in ("read", "peek"):
+                # the look-ahead is an operand of the assigned value (`number = conv(stream.read(2))`): remember it by its
+                # term - temporaries are substituted into the tests - provided the term denotes one read only
+                inner = None
+                for x in ast.walk(s.value):
+                    q = _peekk(x)
+                    if q is not None and q[0] == self.stream and (inner is None or isinstance(x, ast.Subscript)):
+                        inner = (src(x), q[2])
+                if inner is not None and self.reads.count(inner[0]) == 1:
+                    pkd["=" + inner[0]] = inner[1]
+            v = s.value
+            if isinstance(v, ast.Call) and v is ops[0][1] and ops[0][0] == "tell" and before is not None:
+                td[s.targets[0].id] = before
+        return (n, frozenset(fd.items()), frozenset(pkd.items()), frozenset(td.items()), sval, off, certain)
+
+    def _outside(self, n):
+        if n[0] not in ("s", "e", "fin") or n[1] not in self.inside:
+            return True
+        return n[0] == "e" and n[1] == id(self.loop) and n[2] in ("false", "exhaust")
+
+    def _yields(self, n):
+        s = self.cfg.stmt.get(n)
+        if s is None or isinstance(s, (ast.If, ast.While, ast.For, ast.AsyncFor, ast.Try, ast.ExceptHandler, ast.With, ast.AsyncWith)):
+            return False
+        return any(isinstance(x, (ast.Yield, ast.YieldFrom)) for x in ast.walk(s))
+
+    def walk(self):
+        """(bad, aborted): bad = [(certain, what is reached, free decisions on the path, reason of uncertainty)]"""
+        start = (self.header, frozenset(), frozenset(), frozenset(), False, 0, True)
+        seen, stack = {start}, [(start, (), None)]
+        bad = []
+        while stack:
+            st, notes, unsure = stack.pop()
+            n = st[0]
+            s = self.cfg.stmt.get(n)
+            if isinstance(s, (ast.If, ast.While)):
+                nexts = []
+                for label, st2, note, why in self._decide(s.test, st):
+                    e = self.cfg.edge_node(s, label)
+                    if st is start:
+                        # premise of the scenario: an iteration starts (what the loop test needs for that is assumed)
+                        if label != "true":
+                            continue
+                        st2, note, why = st2[:6] + (True,), (), None
+                    if self.cfg.g.has_edge(n, e):
+                        nexts.append((e, st2, notes + note, unsure or why))
+            else:
+                nexts = []
+                for y in self.cfg.g.successors(n):
+                    st2, w = st, unsure
+                    if isinstance(s, (ast.For, ast.AsyncFor)) and y[0] == "e":
+                        off, sval = self._move(self._ops([s.iter]), st[5], st[3], st[4])
+                        if st is start:
+                            if y[2] != "iter":
+                                continue  # premise of the scenario: an iteration starts
+                            st2 = st[:4] + (sval, off, True)
+                        else:
+                            st2 = st[:4] + (sval, off, False)
+                            w = w or "a `for` loop whose trip count the scenario does not determine"
+                    nexts.append((y, st2, notes, w))
+            for y, st2, nt, w in nexts:
+                if self._outside(y):
+                    continue
+                if y == self.header:
+                    if isinstance(self.loop, ast.While):
+                        # the loop test is evaluated again: only entering the body again decodes a further record
+                        for label, st4, note, why in self._decide(self.loop.test, (y,) + st2[1:]):
+                            if label == "true":
+                                bad.append((st4[6], "the next record is decoded", nt + note, w or why))
+                    else:
+                        bad.append((st2[6], "the next record is decoded", nt, w))
+                    continue
+                if self._yields(y):
+                    bad.append((st2[6], f"`{src(self.cfg.stmt[y])[:40]}` is reached", nt, w))
+                    continue
+                st3 = self._arrive(y, (y,) + st2[1:])
+                if st3 not in seen:
+                    seen.add(st3)
+                    if len(seen) > self.MAXSTATES:
+                        return bad, True
+                    stack.append((st3, nt, w))
+        return bad, False
+
+    def emit(self):
+        ctx, f = self.ctx, self.f
+        text = "a zero index alone ends the settings"
+        if self.stream is None:
+            ctx.undecided("R5", "LOOP", f, text, "the struct parse does not read a named stream: the cursor cannot be followed", self.parse)
+            return
+        try:
+            bad, aborted = self.walk()
+        except (KeyError, AttributeError, TypeError, ValueError, IndexError, RecursionError) as e:
+            ctx.undecided("R5", "LOOP", f, text, f"the loop has a shape the scenario walk does not model ({type(e).__name__}: {e})", self.loop)
+            return
+        sure = [b for b in bad if b[0]]
+        scen = "scenario `the record at the cursor has index 0` (any type, length, value and trailing bytes)"
+        if sure:
+            _c0, what, notes, _w = min(sure, key=lambda b: len(b[2]))
+            s2 = any(x.startswith(f"`{self.sname}` is ") for x in notes)
+            ctx.ob("R5", "LOOP", f, text, False,
+                   f"{scen}: {what} " + ("when " + " and ".join(notes[:6]) if notes else "whatever the rest of the record is") + " - the settings do not end at the zero index"
+                   + (" (the truth value of a parsed structure depends on all of its fields, not on the index alone)" if s2 else ""), self.loop)
+        elif aborted:
+            ctx.undecided("R5", "LOOP", f, text, "too many paths through the loop body", self.loop)
+        elif bad:
+            _c0, what, notes, w = bad[0]
+            ctx.undecided("R5", "LOOP", f, text, f"{scen}: {what} on a path whose feasibility is not understood ({w})", self.loop)
+        elif not self.nforced:
+            ctx.undecided("R5", "LOOP", f, text, "no test of the loop could be related to the index of the record at the cursor", self.loop)
+        else:
+            ctx.ob("R5", "LOOP", f, text, True, f"{scen}: every path of the iteration leaves the loop before a yield and before the next record", self.loop)
+
+
 def r5_r6(ctx):
     f = ctx.repo.func("beacon.iter_settings")
     cfg = ctx.cfg(f)
@@ -1359,10 +1862,13 @@ def r5_r6(ctx):
     else:
         tst, edge, stream, consuming, peek_st = term[0]
         e = cfg.edge_node(tst, edge)
-        leaves = not cfg.reaches(e, header) and not cfg.reaches(e, pn)
+        # (whether the loop test lets the body start again after that edge is judged by the scenario walk below)
+        leaves = not cfg.reaches(e, pn, avoiding=[header]) and not any(cfg.reaches(e, y, avoiding=[header]) for y in ys)
         dom = cfg.dominates(cfg.node(tst), pn)
         ctx.ob("R5", "LOOP", f, text, leaves and dom,
-               f"terminator test on a 2-byte peek of {stream}; the 00 00 edge leaves the loop without parsing={leaves}; the test dominates the parse={dom}", tst)
+               f"terminator test on a 2-byte peek of {stream}; the 00 00 edge ends the iteration without parsing or yielding={leaves}; the test dominates the parse={dom}", tst)
+    # ---- scenario "the record at the cursor has index 0": no path of one iteration reaches a yield or the next record
+    _ZeroIndex(ctx, f, cfg, loop, parse, pst, sname).emit()
     # ---- EOF: the parse sits in a try whose EOFError handler leaves the loop
     # (the innermost try - inside or around the loop - whose body holds the parse and that catches EOFError decides)
     eof_ok = False
